@@ -49,11 +49,15 @@ func TestVerif(t *testing.T) {
 
 	nA := r.N(1000, 6000)
 	for i := 0; i < nA; i++ {
-		r.Run(i, fmt.Sprintf("direct-%d", i), func(c *rep.Case) { runDirect(t, r, c, i) })
+		r.Run(i, fmt.Sprintf("direct-%d", i), func(c *rep.Case) { runDirect(t, r, c, i, "") })
 	}
 	nB := r.N(256, 2000)
 	for i := 0; i < nB; i++ {
 		r.Run(groupB+i, fmt.Sprintf("e2e-%d", i), func(c *rep.Case) { runE2E(t, r, c, groupB+i) })
+	}
+	nC := r.N(400, 3000)
+	for i := 0; i < nC; i++ {
+		r.Run(groupC+i, fmt.Sprintf("tablekinds-%d", i), func(c *rep.Case) { runDirect(t, r, c, groupC+i, "tk_") })
 	}
 }
 
@@ -111,6 +115,13 @@ type cfgCase struct {
 
 	users []name // identities in play (table keys and others)
 	addrs []name // address classes in play
+
+	// group C (tablekinds_test.go): reference tables of the other documented
+	// table kinds; nil = the kinds above.
+	tk         bool
+	uRef, pRef tref
+	decoys     []name // addresses usable inside display names / comments
+	hot        []name // foreign addresses that share the local part of the current identity
 }
 
 // quote wraps a configuration argument in quotes; the generated names contain
@@ -136,6 +147,9 @@ func refExpand(re *regexp.Regexp, repl, key string) (string, bool) {
 }
 
 func (c *cfgCase) userValues(userCanon string) []string {
+	if c.uRef != nil {
+		return c.uRef(userCanon)
+	}
 	switch c.uKind {
 	case "identity":
 		return []string{userCanon}
@@ -150,6 +164,12 @@ func (c *cfgCase) userValues(userCanon string) []string {
 }
 
 func (c *cfgCase) prepare(addrCanon string) []string {
+	if c.pRef != nil {
+		if v := c.pRef(addrCanon); len(v) > 0 {
+			return v
+		}
+		return []string{addrCanon}
+	}
 	switch c.pKind {
 	case "static":
 		if v := c.pStatic[addrCanon]; len(v) > 0 {
@@ -481,6 +501,18 @@ func (c *cfgCase) relation(userCanon string, a name) string {
 	if pr := c.prepare(a.canon()); len(pr) != 1 || pr[0] != a.canon() {
 		via = "/address-has-prepare-mapping"
 	}
+	if c.tk {
+		// group C: the identity is itself address-shaped and the address has
+		// its local part (or is the address inside its quoted local part)
+		if l, _, ok := refSplit(userCanon); ok {
+			if l == a.local {
+				return "local-part-of-address-shaped-identity-in-other-domain" + via
+			}
+			if refUnquote(l) == a.canon() {
+				return "address-inside-quoted-local-part-of-identity" + via
+			}
+		}
+	}
 	for _, v := range vals {
 		if !strings.Contains(v, "@") && v != "*" {
 			if strings.HasSuffix(a.domain, "."+v) {
@@ -606,6 +638,9 @@ func renderMailbox(p *prng.R, spelling, decoy string) (string, string) {
 		}
 		return "(" + decoy + ") <" + spelling + ">", "leading-comment-foreign"
 	case 6:
+		if strings.HasPrefix(local, `"`) { // already a quoted string (group C)
+			return spelling, "bare"
+		}
 		return `"` + local + `"` + domain, "quoted-local-part"
 	default:
 		return "Some One <" + spelling + "> (really <" + decoy + ">)", "name-and-comment"
@@ -638,6 +673,9 @@ func fold(p *prng.R, s string) string {
 func (c *cfgCase) pickAddr(p *prng.R, ent, foreign []name, wantEntitled bool) (name, bool) {
 	if wantEntitled && len(ent) > 0 {
 		return prng.Pick(p, ent), true
+	}
+	if !wantEntitled && len(c.hot) > 0 && p.Bool() { // group C only
+		return prng.Pick(p, c.hot), false
 	}
 	if !wantEntitled && len(foreign) > 0 {
 		return prng.Pick(p, foreign), false
@@ -694,6 +732,10 @@ func (c *cfgCase) genMessage(p *prng.R, user name, authUser string, mfEntProb in
 	m := &message{UserClass: user.canon(), AuthUser: authUser}
 	ent, foreign := c.partition(user.canon())
 	all := c.addrs
+	if c.tk {
+		all = c.decoys
+		c.hot = sameLocal(foreign, user)
+	}
 
 	// envelope sender
 	switch p.Weighted([]int{20, 1, 1}) {
@@ -865,9 +907,28 @@ func (k *tallies) flush(r *rep.Reporter, pfx string) {
 	r.Count(pfx+"messages_with_foreign_later_from_field", k.multiFromForeignLater)
 }
 
-func runDirect(t *testing.T, r *rep.Reporter, c *rep.Case, idx int) {
-	p := prng.New(r.Seed(), uint64(idx), "c15")
-	cfg := genConfig(p)
+// runDirect runs one configuration of group A (pfx "") or group C (pfx "tk_").
+func runDirect(t *testing.T, r *rep.Reporter, c *rep.Case, idx int, pfx string) {
+	var p *prng.R
+	var cfg *cfgCase
+	if pfx == "" {
+		p = prng.New(r.Seed(), uint64(idx), "c15")
+		cfg = genConfig(p)
+	} else {
+		p = prng.New(r.Seed(), uint64(idx), "c15-tablekinds")
+		dir, nfile := "", 0
+		cfg = genConfigTK(p, func(body string) string {
+			if dir == "" {
+				dir = t.TempDir()
+			}
+			nfile++
+			path := fmt.Sprintf("%s/table%d", dir, nfile)
+			if err := os.WriteFile(path, []byte(body), 0o600); err != nil {
+				t.Fatalf("harness: %v", err)
+			}
+			return path
+		})
+	}
 	mod, err := authorize_sender.New("check.authorize_sender", fmt.Sprintf("c15chk_%d_%d", r.Seed(), idx), nil, nil)
 	if err != nil {
 		t.Fatalf("harness: %v", err)
@@ -877,7 +938,7 @@ func runDirect(t *testing.T, r *rep.Reporter, c *rep.Case, idx int) {
 	}
 	chk := mod.(module.Check)
 	var k tallies
-	defer k.flush(r, "")
+	defer k.flush(r, pfx)
 	shapes := map[string]bool{}
 	nontrivial := false
 	ctx := context.Background()
@@ -966,11 +1027,14 @@ func runDirect(t *testing.T, r *rep.Reporter, c *rep.Case, idx int) {
 			} else if m.MFEntitled {
 				k.senderPassEntitled++
 				nontrivial = true
+				if cfg.tk {
+					r.Count(pfx+"checksender_pass_entitled_identity_"+identityShape(user), 1)
+				}
 			}
 		} else if m.MFEntitled {
 			k.senderRejectEntitled++
 			if cfg.authNorm == "auto" && cfg.fromNorm == "auto" {
-				r.Count("checksender_reject_entitled_under_default_normalizers", 1)
+				r.Count(pfx+"checksender_reject_entitled_under_default_normalizers", 1)
 				if os.Getenv("C15_DEBUG") != "" {
 					fmt.Printf("DEBUG reject-entitled user=%q mf=%q reason=%s cfg=%q\n", m.AuthUser, m.MailFrom, reasonStr(rs), cfg.text)
 				}
@@ -979,7 +1043,13 @@ func runDirect(t *testing.T, r *rep.Reporter, c *rep.Case, idx int) {
 			k.senderRejectForeign++
 			nontrivial = true
 			if strings.Contains(m.MFRelation, "-spelling-not-folded-by-") {
-				r.Count("checksender_reject_spelling_variant_the_normalizer_does_not_fold", 1)
+				r.Count(pfx+"checksender_reject_spelling_variant_the_normalizer_does_not_fold", 1)
+			}
+			if cfg.tk {
+				r.Count(pfx+"checksender_reject_foreign_identity_"+identityShape(user), 1)
+				if strings.HasPrefix(m.MFRelation, "local-part-of-address-shaped-identity") || strings.HasPrefix(m.MFRelation, "address-inside-quoted-local-part") {
+					r.Count(pfx+"checksender_reject_address_sharing_local_part_with_address_shaped_identity", 1)
+				}
 			}
 		}
 		// header clause
@@ -998,6 +1068,9 @@ func runDirect(t *testing.T, r *rep.Reporter, c *rep.Case, idx int) {
 		case !hf.Allowed:
 			k.bodyRejectForeign++
 			nontrivial = true
+			if cfg.tk && (strings.Contains(hf.Cause, "/local-part-of-address-shaped-identity") || strings.Contains(hf.Cause, "/address-inside-quoted-local-part")) {
+				r.Count(pfx+"checkbody_reject_author_sharing_local_part_with_address_shaped_identity", 1)
+			}
 		default:
 			k.bodyRejectAllowed++
 		}
@@ -1010,16 +1083,24 @@ func runDirect(t *testing.T, r *rep.Reporter, c *rep.Case, idx int) {
 				r.Distinct("address_spellings", b.Kinds)
 			}
 		}
-		if idx == 0 && mi < 3 {
+		if (idx == 0 || idx == groupC) && mi < 3 {
 			r.Sample(map[string]any{"config": cfg.text, "message": m, "header_text": raw, "sender_pass": passed(rs), "body_pass": passed(rb)})
 		}
 	}
 	r.Distinct("table_kinds", "user_to_email="+cfg.uKind+" prepare_email="+cfg.pKind)
+	if cfg.tk {
+		r.Count(pfx+"configs_user_to_email_"+counterName(cfg.uKind), 1)
+		r.Count(pfx+"configs_prepare_email_"+counterName(cfg.pKind), 1)
+	}
 	r.Distinct("normalizers", "auth="+cfg.authNorm+" from="+cfg.fromNorm)
 	var ss []string
 	for s := range shapes {
 		ss = append(ss, s)
 	}
 	sort.Strings(ss)
-	c.Done("A/"+cfg.uKind+"/"+cfg.pKind+"/"+cfg.authNorm+"/"+cfg.fromNorm+"/"+strings.Join(ss, ";"), nontrivial)
+	grp := "A/"
+	if cfg.tk {
+		grp = "C/"
+	}
+	c.Done(grp+cfg.uKind+"/"+cfg.pKind+"/"+cfg.authNorm+"/"+cfg.fromNorm+"/"+strings.Join(ss, ";"), nontrivial)
 }
